@@ -112,6 +112,10 @@ End EquivSpec.
      "rng-object"    a std::random_device / standard engine object
      "mutable-member" a `mutable` data member
      "write"         a textual assignment to / increment of a global-mutable object
+     "rand-user"     calls of the wrappers uniform_random / gaussian_random / uniform_random_index /
+                     random_shuffle of defines/random.hpp in that file, name = "<wrapper>#<count>"
+     "logger-read"   a use of Logging::instance() that is not a `message_<level>(..)` call (level
+                     getters, sink getter / setter, level switches, the singleton bound to a name)
    The "-const" kinds cannot carry information from one call to the next and are not
    constrained (adding a new method constant is harmless); every other entry must be
    in the hand-written allow-list below. *)
@@ -136,7 +140,7 @@ Definition const_kinds : list string :=
   ["static-local-const"; "static-member-const"; "global-const"]%string.
 Definition state_kinds : list string :=
   ["static-local"; "static-member"; "global-mutable"; "rand"; "rng-object"; "mutable-member";
-   "write"]%string.
+   "write"; "rand-user"; "logger-read"]%string.
 
 Definition str_mem (s : string) (l : list string) : bool := existsb (String.eqb s) l.
 
@@ -165,7 +169,20 @@ Definition known_kind (e : static_entry) : bool :=
    - routines/matrix_operations.hpp `foo`: function-local static std::string constants
      ("SM"/"LA") returned by const reference.
    - utils/logging.hpp `s`: the Logging singleton (level flags + sink pointer): it decides
-     what is PRINTED, never what is computed. *)
+     what is PRINTED, never what is computed: NO "logger-read" entry is allowed, i.e. outside
+     logging.hpp the library uses the singleton only through message_<level>(..), which return
+     void (Equiv_Effects.v: a program whose logger operations have no answer computes the same
+     value for every logger state).
+   - "rand-user": the files that call the random wrappers.  tsne.hpp, barnes_hut_sne/vptree.hpp,
+     landmarks.hpp (select_landmarks_random), random_projection.hpp, spe.hpp belong to randomised
+     methods; routines/eigendecomposition.hpp draws in eigendecomposition_impl_randomized only
+     (eigen_method = Randomized; the property is stated for the dense solver); neighbors/vptree.hpp
+     draws the pivots of the VP tree: the set of k nearest neighbours does not depend on the pivots
+     (property C02's theorem about the VP-tree search for an arbitrary pivot choice), and the
+     history stream compares such calls bitwise under different states of the random stream.
+     Every other deterministic call is OBSERVED to draw nothing (the embed driver counts the draws
+     of std::rand and the hooked random_shuffle calls of every call: Equiv_Effects.v turns "no
+     draw on the executed path" into "same result for every state of the stream"). *)
 Definition allowed_stateful : list static_entry :=
   [ ("stichwort/policy.hpp", "static-local", "policy");
     ("stichwort/policy.hpp", "static-member", "s");
@@ -178,8 +195,16 @@ Definition allowed_stateful : list static_entry :=
     ("tapkee/defines/random.hpp", "rng-object", "urng");
     ("tapkee/defines/random.hpp", "rng-object", "urng_copy");
     ("tapkee/defines/random.hpp", "static-local", "hook");
+    ("tapkee/external/barnes_hut_sne/tsne.hpp", "rand-user", "gaussian_random#1");
+    ("tapkee/external/barnes_hut_sne/vptree.hpp", "rand-user", "uniform_random#1");
+    ("tapkee/neighbors/vptree.hpp", "rand-user", "uniform_random#1");
+    ("tapkee/routines/eigendecomposition.hpp", "rand-user", "gaussian_random#1");
+    ("tapkee/routines/landmarks.hpp", "rand-user", "random_shuffle#1");
     ("tapkee/routines/manifold_sculpting.hpp", "rand", "rand#1");
     ("tapkee/routines/matrix_operations.hpp", "static-local", "foo");
+    ("tapkee/routines/random_projection.hpp", "rand-user", "gaussian_random#1");
+    ("tapkee/routines/spe.hpp", "rand-user", "random_shuffle#1");
+    ("tapkee/routines/spe.hpp", "rand-user", "uniform_random#1");
     ("tapkee/utils/logging.hpp", "static-local", "s") ]%string.
 
 Definition inventory_ok (inv : list static_entry) : bool :=
